@@ -436,3 +436,19 @@ Print Assumptions C20_driver_all_atom_annotation_error.
 Print Assumptions C20_nonvacuous_driver_all_atom.
 Print Assumptions C20_find_blocks_dotted.
 Print Assumptions C20_driver_blocks_fragment_error.
+
+(** ------------------------------------------------------------------------------------------
+    A keyword written twice (`[#A;w=1;w=2]`): decided to lie OUTSIDE the property.  The statement lists the annotation
+    faults (two '=' in one entry, too many positional values, a non-numeric charge or weight); a repeated keyword is none of
+    them, and C14's quantifier ranges over subsets of the keys.  The code keeps keyword entries in a dict, the later value
+    replaces the earlier one, the annotation is accepted (bounded statement of what the model - tied to dialects.py on such
+    texts on every run of C14 - does); the same key given positionally AND by keyword IS rejected (C20_bound_twice_rejected). *)
+From CGV Require Import Dialect.DuplicateKey.
+Example C20_duplicate_keyword_last_wins_small :
+  parse_dialect fo_demo graph_base_dialect (S "A;w=+1;w=1e-1") =
+    Ok [(S "fragname", VStr (S "A")); (S "charge", VFlt (S "0.0")); (S "weight", VFlt (S "0.1"))] /\
+  parse_dialect fo_demo graph_base_dialect (S "A;foo=1;bar=2;foo=3") =
+    Ok [(S "foo", VStr (S "3")); (S "bar", VStr (S "2")); (S "fragname", VStr (S "A")); (S "charge", VFlt (S "0.0")); (S "weight", VFlt (S "1.0"))] /\
+  parse_dialect fo_demo graph_base_dialect (S "A;+1;q=+1") = Err (ESyntax (S "bind")).
+Proof. exact duplicate_keyword_last_wins_small. Qed.
+Print Assumptions C20_duplicate_keyword_last_wins_small.
